@@ -84,7 +84,12 @@ def generate(rng, tier, index):
     led_pts = {0, 1, 12, 720, lb[-1] - 1}
     b = rng.choice(lb[:-1])
     led_pts.update((b - 1, b, b + 1, rng.randrange(lb[-1])))
-    for k in sorted(rng.sample(sorted(led_pts), 3)):
+    led_cuts = set(rng.sample(sorted(led_pts), 3))
+    # and inside the tail of the leader (auxiliary facility records), where a reader that locates
+    # records from the end of the file would look
+    for _ in range(3):
+        led_cuts.add(rng.randrange(lb[-6], lb[-1]))
+    for k in sorted(led_cuts):
         faults.append({"kind": "trunc", "file": prod.led, "at": k})
     vsize = len(prod.files[prod.vol])
     for k in sorted({rng.choice([0, 1, 359, 360, 361, vsize - 360, vsize - 1]),
